@@ -724,6 +724,22 @@ class Interp(Ops, B.BuiltinsMixin):
         if isinstance(cur, NdArr):
             from . import npmodel
             return npmodel.inplace(self, op, cur, val)
+        # in-place operators of the mutable builtins mutate the object they are applied to (aliases see the change)
+        if isinstance(cur, DictV) and isinstance(op, ast.BitOr):
+            if not isinstance(val, DictV):
+                self.raise_py("TypeError", "unsupported operand type(s) for |=: 'dict' and non-dict")
+            for k_, v_ in zip(list(val.keys), list(val.vals)):
+                self.dict_set(cur, k_, v_)
+            return cur
+        if isinstance(cur, SetV) and not cur.frozen and isinstance(val, SetV) and isinstance(op, (ast.BitOr, ast.BitAnd, ast.Sub, ast.BitXor)):
+            new = self.binop(op, cur, val)
+            if isinstance(new, SetV):
+                cur.items[:] = list(new.items)
+                return cur
+            return new
+        if isinstance(cur, ListV) and isinstance(op, ast.Mult) and type(val) is int:
+            cur.items[:] = list(cur.items) * val
+            return cur
         r = self.inplace_hook(op, cur, val)
         if r is not NOT_IMPLEMENTED:
             return r
